@@ -385,6 +385,13 @@ func (m *metadataAPI) CreateStream(ctx context.Context, req *proto.CreateStreamO
 	if err := future.Error(); err != nil {
 		return status.Newf(codes.Internal, "Failed to replicate partition: %v", err.Error())
 	}
+	if err := refusedByFSM(future); err != nil {
+		code := codes.FailedPrecondition
+		if err == ErrStreamExists {
+			code = codes.AlreadyExists
+		}
+		return status.Newf(code, "%s", err.Error())
+	}
 
 	// Wait for leaders to create partitions (best effort).
 	var wg sync.WaitGroup
@@ -434,6 +441,13 @@ func (m *metadataAPI) DeleteStream(ctx context.Context, req *proto.DeleteStreamO
 	}
 	if err := future.Error(); err != nil {
 		return status.Newf(codes.Internal, "Failed to delete stream: %v", err.Error())
+	}
+	if err := refusedByFSM(future); err != nil {
+		code := codes.FailedPrecondition
+		if err == ErrStreamNotFound {
+			code = codes.NotFound
+		}
+		return status.Newf(code, "%s", err.Error())
 	}
 
 	return nil
@@ -587,6 +601,9 @@ func (m *metadataAPI) ShrinkISR(ctx context.Context, req *proto.ShrinkISROp) *st
 	if err := future.Error(); err != nil {
 		return status.Newf(codes.Internal, "Failed to shrink ISR: %v", err.Error())
 	}
+	if err := refusedByFSM(future); err != nil {
+		return status.Newf(codes.FailedPrecondition, "%s", err.Error())
+	}
 
 	return nil
 }
@@ -639,6 +656,9 @@ func (m *metadataAPI) ExpandISR(ctx context.Context, req *proto.ExpandISROp) *st
 	}
 	if err := future.Error(); err != nil {
 		return status.Newf(codes.Internal, "Failed to expand ISR: %v", err.Error())
+	}
+	if err := refusedByFSM(future); err != nil {
+		return status.Newf(codes.FailedPrecondition, "%s", err.Error())
 	}
 
 	return nil
@@ -1729,6 +1749,9 @@ func (m *metadataAPI) electNewPartitionLeader(ctx context.Context, partition *pa
 	}
 	if err := future.Error(); err != nil {
 		return status.Newf(codes.Internal, "Failed to replicate leader change: %v", err.Error())
+	}
+	if err := refusedByFSM(future); err != nil {
+		return status.Newf(codes.FailedPrecondition, "%s", err.Error())
 	}
 
 	return nil
